@@ -12,7 +12,10 @@ Space: instants (calendar boundaries, 2^31, 10^9, leap days, 1970 and 2100 ends;
 zone, with no / 3-digit / 6-digit fraction, int, float, np.int64, np.float64, np.datetime64 in
 s/ms/us/ns) x functions (to_datetime_utc, to_datetime64 and back, datetime_to_iso_time_string and
 back), plus containers (list, tuple, object ndarray, pd.Series, DataArray, typed ndarrays/Series) of
-mixed representations in every rotation; and the packed integers: every hh, every hhmm, every
+mixed representations in every rotation; datetime64 arrays of every unit (s, ms, us, ns) inside every
+container that can carry them (ndarray, DataArray values, DataArray coordinate, naive and tz-aware
+pd.Series, Series built from Python datetimes, 2-D ndarray / DataArray) -- the unit the container
+really holds is read back and counted, so a silent coercion to ns cannot make that family vacuous; and the packed integers: every hh, every hhmm, every
 hhmmss, every yymmdd, every yyyymmdd of a year range, and a date x time lattice through
 datetime_from_time_and_date_integers (both output kinds).
 """
@@ -54,7 +57,11 @@ REQUIRED_CATEGORIES = [
     "container:ndarray_object", "container:series_object", "container:dataarray_object", "container:ndarray_dt64",
     "container:series_tz", "container:dataarray_dt64", "container:ndarray_str", "container:ndarray_float",
     "container:ndarray_int", "packed:hh", "packed:hhmm", "packed:hhmmss", "packed:yymmdd", "packed:yyyymmdd",
-    "packed:combined", "packed:combined_dt64", "leap_day", "local_zone:NST3:30NDT", "local_zone:UTC0",
+    "packed:combined", "packed:combined_dt64", "leap_day", "container_2d",
+    "unit_kept:ndarray_dt64:ns", "unit_kept:ndarray_dt64:us", "unit_kept:ndarray_dt64:ms", "unit_kept:ndarray_dt64:s",
+    "unit_kept:dataarray_dt64:ns", "unit_kept:dataarray_dt64:us", "unit_kept:dataarray_dt64:ms", "unit_kept:dataarray_dt64:s",
+    "unit_kept:series_tz:ns", "unit_kept:series_tz:us", "unit_kept:series_tz:ms", "unit_kept:series_tz:s",
+    "local_zone:NST3:30NDT", "local_zone:UTC0",
     "local_zone:NPT-5:45",
 ]
 
@@ -300,6 +307,35 @@ class Want:
         return self.floor_ok and got_us == self.floor_us
 
 
+DT64_UNITS = ("ns", "us", "ms", "s")
+
+
+def want_of_dt64(val):
+    """what a datetime64 element (of whatever unit the container really holds) denotes."""
+    unit = np.datetime_data(val.dtype)[0]
+    ns = epoch_ns_of_dt64(val)
+    if ns % 1000 == 0:
+        return Want("dt64_" + unit, val, ns // 1000)
+    return Want("dt64_ns", val, None)
+
+
+def dt64_counts(us_list, unit):
+    """integer counts in `unit` of the instants that are representable in it."""
+    div = {"ns": None, "us": 1, "ms": 1000, "s": US}[unit]
+    if div is None:
+        return [u * 1000 for u in us_list]
+    return [u // div for u in us_list if u % div == 0]
+
+
+def flatten(x):
+    if isinstance(x, (list, tuple, np.ndarray)):
+        out = []
+        for y in x:
+            out += flatten(y)
+        return out
+    return [x]
+
+
 def check_utc_datetime(c, key, r, want, detail):
     """r must be an aware datetime with zero offset denoting the instant."""
     if not isinstance(r, datetime):
@@ -512,13 +548,18 @@ def run_container(unit):
             return xarray.DataArray(arr, dims=("time",))
         raise ValueError(kind)
 
-    def check_seq(objs, wants, exprs, label, with_dt64=True):
+    def check_seq(objs, wants, exprs, label, with_dt64=True, two_d=False):
         key = {"fn": "to_datetime_utc", "container": kind, "content": label}
-        det = {"call": f"to_datetime_utc(<{kind} of {len(objs)}>)", "members": exprs[:12]}
+        det = {"call": f"to_datetime_utc(<{kind} of {len(wants)}>)", "members": exprs[:12]}
         c.evaluations += 1
         c.cat("container:" + kind)
         seq = objs
         ok, res = guarded(c, key, det, to_datetime_utc, seq)
+        if ok and two_d:
+            # the statement does not fix the shape of the answer for a 2-D input: nested or flat, the
+            # members must come back in row-major order
+            c.cat("container_2d")
+            res = flatten(res) if isinstance(res, (list, tuple, np.ndarray)) else res
         if ok:
             if not isinstance(res, (list, tuple, np.ndarray)) or len(res) != len(wants):
                 c.violation(dict(key, check="length"), f"{det['call']} -> {type(res).__name__} of length "
@@ -590,31 +631,57 @@ def run_container(unit):
                 r_ = lambda lst: lst[rot % len(lst):] + lst[:rot % len(lst)]  # noqa
                 c.case({"k": kind, "c": chunk_i, "rot": rot})
                 c.nontriv((kind, chunk_i, rot))
-                if kind == "ndarray_dt64":
-                    for unit_, src, mul in (("ns", r_(sel), 1000), ("us", r_(sel), 1), ("ms", r_(selm), None), ("s", r_(selw), None)):
-                        if mul is None:
-                            cnt = [u // (1000 if unit_ == "ms" else US) for u in src]
-                        else:
-                            cnt = [u * mul for u in src]
+                if kind in ("ndarray_dt64", "dataarray_dt64", "series_tz"):
+                    # datetime64 of EVERY unit inside every container that can carry it.  What the container
+                    # really holds after construction is read back (unit_kept:* categories are required, so a
+                    # library version that silently coerces to ns makes the run fail its vacuity check
+                    # instead of passing emptily); the expected instants are taken from the held values.
+                    for unit_ in DT64_UNITS:
+                        cnt = dt64_counts(r_(sel), unit_) or dt64_counts(whole[:1], unit_)
                         arr = np.array(cnt, dtype="int64").astype(f"datetime64[{unit_}]")
-                        wants = [Want("dt64_" + unit_, arr[i], u) for i, u in enumerate(src)]
-                        check_seq(arr, wants, [f"np.datetime64({x},'{unit_}')" for x in cnt], "dt64_" + unit_)
-                elif kind == "dataarray_dt64":
-                    src = r_(sel)
-                    arr = np.array([u * 1000 for u in src], dtype="int64").astype("datetime64[ns]")
-                    da = xarray.DataArray(arr, dims=("time",))
-                    wants = [Want("dt64_ns", da.values[i], u) for i, u in enumerate(src)]
-                    check_seq(da, wants, [f"np.datetime64({u * 1000},'ns')" for u in src], "dt64_ns")
-                elif kind == "series_tz":
-                    src = r_(sel)
-                    arr = np.array([u * 1000 for u in src], dtype="int64").astype("datetime64[ns]")
-                    for tzoff in (None, 0, 330, -210):
-                        s = pd.Series(arr)
-                        if tzoff is not None:
-                            s = s.dt.tz_localize("UTC").dt.tz_convert(timezone(timedelta(minutes=tzoff)))
-                        wants = [Want("dt64_ns", arr[i], u) for i, u in enumerate(src)]
-                        check_seq(s, wants, [f"Timestamp({u * 1000} ns, offset {tzoff})" for u in src],
-                                  "series_naive" if tzoff is None else "series_tz")
+                        ex = [f"np.datetime64({x},'{unit_}')" for x in cnt]
+                        variants = []
+                        if kind == "ndarray_dt64":
+                            variants.append(("dt64_" + unit_, arr, arr, True, False))
+                            if rot == 0:
+                                variants.append(("dt64_" + unit_ + "_2d", np.stack([arr, arr[::-1]]),
+                                                 np.concatenate([arr, arr[::-1]]), False, True))
+                        elif kind == "dataarray_dt64":
+                            da = xarray.DataArray(arr, dims=("time",))
+                            variants.append(("dt64_" + unit_, da, da.values, True, False))
+                            co = xarray.DataArray(np.arange(len(arr), dtype=float), dims=("time",),
+                                                  coords={"time": arr})["time"]
+                            variants.append(("coord_dt64_" + unit_, co, co.values, True, False))
+                            if rot == 0:
+                                d2 = xarray.DataArray(np.stack([arr, arr[::-1]]), dims=("x", "time"))
+                                variants.append(("dt64_" + unit_ + "_2d", d2, d2.values.reshape(-1), False, True))
+                        else:
+                            for tzoff in (None, 0, 330, -210):
+                                sr = pd.Series(arr)
+                                if tzoff is not None:
+                                    sr = sr.dt.tz_localize("UTC").dt.tz_convert(timezone(timedelta(minutes=tzoff)))
+                                variants.append((("series_naive_" if tzoff is None else "series_tz_") + unit_, sr,
+                                                 sr.values, True, False))
+                            if rot == 0 and unit_ == "us":
+                                # a Series built from Python datetimes (pandas infers the unit itself)
+                                py = [datetime(*fields_from_us(u)) for u in dt64_counts(r_(sel), "us")]
+                                sr = pd.Series(py)
+                                variants.append(("series_from_datetimes", sr, sr.values, True, False))
+                        for label, obj, held, with64, two_d in variants:
+                            held = np.asarray(held)
+                            if held.dtype.kind != "M" or len(held) != (2 if two_d else 1) * len(cnt):
+                                raise AssertionError(f"harness: {kind}/{label} holds {held.dtype} x {len(held)}")
+                            held_unit = np.datetime_data(held.dtype)[0]
+                            c.cat(f"unit_kept:{kind}:{held_unit}")
+                            src_ns = [x * _UNIT_NS[unit_] for x in cnt]
+                            if two_d:
+                                src_ns = src_ns + src_ns[::-1]
+                            if [epoch_ns_of_dt64(v) for v in held] != src_ns:
+                                raise AssertionError(f"harness: {kind}/{label} does not hold the instants put in")
+                            wants = [want_of_dt64(v) for v in held]
+                            exprs = (ex + ex[::-1]) if two_d else ex
+                            check_seq(obj, wants, [f"{e} held as [{held_unit}]" for e in exprs], label,
+                                      with_dt64=with64, two_d=two_d)
                 elif kind == "ndarray_str":
                     src = r_(sel)
                     for st, zone in (("auto", "Z"), ("f6", ""), ("f6", "+05:45"), ("auto", "-03:30")):
